@@ -1,8 +1,20 @@
 // Unit c37_resource_assertions -- property C37 "Resource assertions accept exactly the balances they describe"
-// Real code: radix-common/src/data/manifest/model/manifest_resource_assertion.rs
-//   ManifestResourceConstraint::{validate_fungible, validate_non_fungible, is_valid_for_fungible_use,
-//   is_valid_for_non_fungible_use}, GeneralResourceConstraint::{...}, LowerBound::{...}, UpperBound::{...},
-//   AllowedIds::{...}.
+// Real code: radix-common/src/data/manifest/model/manifest_resource_assertion.rs (31 functions, bodies verbatim)
+//   ManifestResourceConstraint::{is_valid_for, is_valid_for_fungible_use, is_valid_for_non_fungible_use,
+//       validate_fungible, validate_non_fungible}
+//   GeneralResourceConstraint::{is_valid_for_fungible_use, is_valid_for_non_fungible_use, validate_fungible,
+//       validate_non_fungible_ids, validate_amount, is_valid_independent_of_resource_type, normalize}
+//   LowerBound::{Ord::cmp, cmp_upper, zero, non_zero, validate_amount, is_valid_for_fungible_use,
+//       is_valid_for_non_fungible_use, equivalent_decimal, is_satisfied_by}
+//   UpperBound::{Ord::cmp, zero, unbounded, validate_amount, is_valid_for_fungible_use,
+//       is_valid_for_non_fungible_use, equivalent_decimal}
+//   AllowedIds::{validate_ids, allowlist_equivalent_length, is_valid_for_fungible_use}
+// Oracle: sat_f / sat_nf (meaning of a constraint over attos / finite id sets), valid_* (documented validity),
+// normal_form (documented normal form), key_cmp (documented order of bounds).
+// Pure lemmas: satisfiability of valid constraints, meaning of the bound order, FINDING witness lemma_fungible_gap.
+// FINDING (replayed on the real crate, see finding_replay/): GeneralResourceConstraint::is_valid_for_fungible_use
+// accepts an empty allowlist without the documented "upper bound is zero" clause; normalize then changes the
+// accepted fungible amounts of such a "valid" constraint.
 use vstd::prelude::*;
 verus! {
 /*@include shims/rt.rs @*/
@@ -596,7 +608,7 @@ pub mod unit {
         @sig
             ensures ret is Ok <==> sat_general_nf(*self, ids@),
                     ret matches Err(e) ==> general_nf_err(*self, ids@, e),
-        @before <<self.allowed_ids.validate_ids(ids)>> #1
+        @entry
             proof { lemma_difference_empty(self.required_ids@, ids@); }
         @*/
         /*@fn radix-common/src/data/manifest/model/manifest_resource_assertion.rs :: impl GeneralResourceConstraint :: fn validate_amount
